@@ -226,10 +226,13 @@ def operand(env, o):
             return ord(v)
         if v is not None:
             return v
+        if "fn" in c and FN_CONST is not None:
+            return FN_CONST(c)              # a function item used as a value (`&mut Self::helper`, `.map(helper)`)
         return UNKNOWN
     return UNKNOWN
 
 
+FN_CONST = None         # client hook: abstract value of a function-item constant
 _PROMOTED = {}
 
 
